@@ -10,7 +10,9 @@ RULE = ("one case = one migration of one history: histories grown by the real pl
         "generated evolutions (Profile::Engine), hand-extended histories (RenameTable, RenameColumn, explicit Add/RemoveConstraint, "
         "RawSql, direct ModifyColumn*), and sequences of 3-5 successive single-attribute edits (type / nullability / default / comment) "
         "of one column incl. the auto-increment key column (all 24 orders of the four kinds in quick, all sequences of length 3 and 4 "
-        "in thorough), corpus witnesses first; non-trivial = migration on a non-empty baseline emitting >= 2 MySQL statements, "
+        "in thorough), the auto-increment key column retyped by hand-written migrations across the integer / non-integer boundary and back "
+        "(integer, big_int, small_int, varchar(36), uuid, text; 4 scripted sequences + random ones, interleaved with comment / default / "
+        "nullability MODIFYs: stream `autokey`), corpus witnesses first; non-trivial = migration on a non-empty baseline emitting >= 2 MySQL statements, "
         "distinct by hash of (baseline, plan)")
 
 ENGINE_RULES = [
@@ -23,7 +25,7 @@ ENGINE_RULES = [
     "M6 ADD COLUMN: name new (1060)", "M7 DROP COLUMN: exists (1091), not the last column (1090), in no foreign key of the table (1828), not referenced (1829); "
     "the column leaves every key, empty keys vanish, key names unchanged",
     "M8 RENAME COLUMN: source exists, target free; keys and foreign keys on both sides follow",
-    "M9 MODIFY COLUMN: column exists; it becomes EXACTLY the definition (NOT NULL / DEFAULT / AUTO_INCREMENT not restated are lost; an AUTO_INCREMENT column must be a key, 1075); PRIMARY KEY parts must stay NOT NULL (1171)",
+    "M9 MODIFY COLUMN: column exists; it becomes EXACTLY the definition (NOT NULL / DEFAULT / AUTO_INCREMENT not restated are lost; an AUTO_INCREMENT column must be a key, 1075); PRIMARY KEY parts must stay NOT NULL (1171); AUTO_INCREMENT on a non-numeric column is refused (1063, also in CREATE TABLE and ADD COLUMN)",
     "M10 foreign key: name unique per schema (1826), columns exist, target table / columns exist, target has a key with the columns leftmost (1822); "
     "an index named like the constraint is created implicitly if no key serves it; M-GEN such an index is dropped when an explicit key covering it is created",
     "M11 DROP FOREIGN KEY: exists (1091); the implicit index stays", "M12 CHECK names unique per schema (3822); DROP CHECK: exists (3821)",
